@@ -422,6 +422,49 @@ def merge_bool_arms(data):
     return n
 
 
+def unroll_literal_loops(data):
+    """In place: `for P in [e1, .., en] { B }` over a literal array of at most 6 elements, with no `break` in B, is n one-turn loops
+    `for _ in [()] { let P = ei; B }` one after the other (a `continue` still ends the turn): a table-driven loop over a handful
+    of literal rows reads like the rows written out.  Returns the number of loops unrolled."""
+    import copy
+    n = 0
+    stack = [data]
+    while stack:
+        x = stack.pop()
+        if isinstance(x, list):
+            stack.extend(v for v in x if isinstance(v, (dict, list)))
+            continue
+        if not isinstance(x, dict):
+            continue
+        if x.get("k") == "Block" and x.get("stmts"):
+            out = []
+            changed = False
+            for st in x["stmts"]:
+                lp = st.get("expr") if st.get("k") == "ExprStmt" else None
+                it = lp.get("iter") if isinstance(lp, dict) and lp.get("k") == "ForLoop" else None
+                while isinstance(it, dict) and it.get("k") in ("Ref", "Paren"):
+                    it = it.get("expr")
+                if isinstance(it, dict) and it.get("k") == "MethodCall" and it["method"] in ("iter", "into_iter") and not it["args"]:
+                    it = it["recv"]
+                if isinstance(it, dict) and it.get("k") == "Array" and 2 <= len(it.get("elems", [])) <= 6 and not lp.get("label") \
+                        and not any(y.get("k") == "Break" for y in A.walk(lp["body"])) and all(e.get("k") in ("Tuple", "Lit", "Path", "Ref", "Field") for e in it["elems"]):
+                    pos = {k: lp[k] for k in ("l", "c", "el", "ec")}
+                    for e in it["elems"]:
+                        body = copy.deepcopy(_as_block(lp["body"]))
+                        bind = {"k": "Local", "pat": copy.deepcopy(lp["pat"]), "init": e, "else": None, **pos}
+                        body["stmts"].insert(0, bind)
+                        once = {"k": "ForLoop", "pat": {"k": "PWild", **pos}, "iter": {"k": "Array", "elems": [{"k": "Tuple", "elems": [], **pos}], **pos}, "body": body, "label": None, **pos}
+                        out.append({"k": "ExprStmt", "expr": once, "semi": True, **pos})
+                    n += 1
+                    changed = True
+                else:
+                    out.append(st)
+            if changed:
+                x["stmts"] = out
+        stack.extend(v for v in x.values() if isinstance(v, (dict, list)))
+    return n
+
+
 def desugar_filter_loops(data):
     """In place: `for x in it.filter(|p| C) { B }` becomes `for x in it { if !({ let p = &x; C }) { continue; } B }` (just `!(C)` when
     the closure's parameter has the loop variable's name), so that a loop that passes over some elements reads the same whether the
@@ -444,7 +487,7 @@ def desugar_filter_loops(data):
                 lp = b.get("expr") if b.get("k") == "ExprStmt" else None
                 if a.get("k") == "Local" and a.get("else") is None and a.get("init") is not None and a["pat"].get("k") == "PIdent" and not a["pat"].get("mut") \
                         and isinstance(lp, dict) and lp.get("k") == "ForLoop" and lp["iter"].get("k") == "Path" and lp["iter"]["path"] == a["pat"]["name"] \
-                        and a["init"].get("k") == "MethodCall":
+                        and a["init"].get("k") in ("MethodCall", "Array"):
                     nm = a["pat"]["name"]
                     uses = sum(1 for s_ in st[i + 1:] for y in A.walk(s_) if y.get("k") == "Path" and y.get("path") == nm)
                     if uses == 1:
